@@ -11,7 +11,7 @@ for d in ${1:-/verif/seeded/C*}; do
   out=$(timeout 1800 bin/vf check $id --tier quick 2>&1); rc=$?
   git -C /repo checkout -- .
   sigs=$(echo "$out" | grep -o "sig=[^ ]*" | sed 's/sig=//' | sort -u | paste -sd' ')
-  python3 - "$d/meta.json" "$id" "$rc" "$sigs" <<'PY'
+  [ -n "$NOUPDATE" ] || python3 - "$d/meta.json" "$id" "$rc" "$sigs" <<'PY'
 import json,sys
 p,id,rc,sigs=sys.argv[1:5]
 m=json.load(open(p))
